@@ -52,6 +52,15 @@ def store_query(comp, expect, via, key, d):
         mem = L.raw_image()
         ex = L.call1('start', mem, solver, [], sx)
         inv = []
+    elif via == 'append':
+        # start() then feed 'a': the appended byte lands in the empty string
+        mem = L.raw_image()
+        ex0 = L.call1('start', mem, solver, [], sx)
+        p0 = [p for p in ex0.paths if p.kind == 'RET'][0]
+        mem = p0.mem
+        L.add_chunk(mem, 1, symbols=[z3.BitVecVal(ord('a'), 8)])
+        ex = L.call_feed(mem, 1, solver, list(p0.pc), sx)
+        inv = list(p0.pc)
     else:
         data, inv0 = L.layout.symbolic()
         inv = stepcmp.pre_inv(L, data, inv0, None)
@@ -126,7 +135,7 @@ def work(job):
                     finds.append({'obligation': f'C15/l23/{name}', 'bytes': list(bs), 'context': name, 'source': src, 'what': f'literal {name} spelled for {list(bs)}: byte {bad} is accepted/rejected wrongly',
                                   'detail': f'byte {bad}'})
             elif what in ('assign', 'default', 'append'):
-                probs = store_query(comp, exp, 'default' if what == 'default' else 'assign', key, d)
+                probs = store_query(comp, exp, what, key, d)
                 for pr in probs[:1]:
                     finds.append({'obligation': f'C15/l23/{name}', 'bytes': list(bs), 'context': name, 'source': src, 'what': f'literal {name} spelled for {list(bs)}: {pr}', 'detail': pr})
         except (l3mod.Unencodable, absm.Unsupported) as e:
